@@ -103,7 +103,7 @@ inductive Step (α : Type) where
   | done (a : Arena) (v : α)
   | panic (a : Arena)
   | diverge (a : Arena)
-  deriving Repr
+  deriving Repr, DecidableEq
 
 namespace Step
 
